@@ -19,10 +19,9 @@ import (
 // that is not Succeeded is reconciled; a failed reconcile is retried (as controller-runtime would,
 // error => requeue) up to op.N extra times with the requested back-off on the simulated clock.
 func (r *Run) realBinder(op Op) {
-	var bopts []string
-	if r.S.World.HasDRA() {
-		bopts = []string{"dra"} // the binder's real dynamicresources plugin writes the claim allocation / reservation
-	}
+	// the binder's real k8s-plugins wrapper (volume binding + dynamicresources, which writes the claim allocation /
+	// reservation in DRA worlds), registered before gpusharing as cmd/binder does
+	bopts := []string{"k8s-plugins"}
 	if r.Binder == nil {
 		r.Binder = NewBinderActor(r.API, 40*time.Second, bopts...)
 		r.Binder.BindFail = r.S.BindFail
